@@ -143,7 +143,14 @@ class InterpreterAnalyzer(ASTTemplate):
 
     def visit_Start(self, node: AST.Start) -> Any:
         set_current_registry(ViralPropagationRegistry())
+        try:
+            return self._visit_start(node)
+        finally:
+            # an error raised mid-statement must not leave its output dataset behind for the
+            # messages of later, unrelated calls
+            vtlengine.Exceptions.set_dataset_output(None)
 
+    def _visit_start(self, node: AST.Start) -> Any:
         results = {}
         invalid_dataset_outputs = []
         invalid_scalar_outputs = []
